@@ -2,12 +2,12 @@ CONSTANTS
   K = 1
   MaxNodes = 12
   BaseSet <- AllBases
-  RunCfgSeq <- RunsFp
+  RunCfgSeq <- RunsLook
   Prods <- KeyProds
   KISet <- KIAll
   EnvWhereSet <- EnvWheres
   SibSeqSet <- SibCover
-  Deviations = {"FingerprintAnyCert"}
+  Deviations = {"LookalikeRoot"}
   EmitMin = 9
   EmitFrom = 9
   EmitMod = 1
